@@ -164,11 +164,13 @@ int main(int argc, char** argv) {
         auto ps = std::make_shared<PhaseSpace>(-6, 6, 1e-3, -6, 6, 1e3, nullptr, 1e-9, 1e-3, fill, 1.0, nullptr);
         std::vector<impedance_t> zv(nmax); std::vector<cd> Z(nmax);
         for (size_t i = 0; i < nmax; i++) { zv[i] = impedance_t(std::fabs(u(g)) * (1 + 0.01 * i), u(g)); Z[i] = cd(zv[i].real(), zv[i].imag()); }
+        // seeds >= 100: an impedance table that ends well below the Nyquist frequency (exact zeros above, as after reading a short file)
+        if (seed >= 100) for (size_t i = nmax / 5 + 1; i < nmax; i++) { zv[i] = impedance_t(0, 0); Z[i] = cd(0, 0); }
         auto imp = std::make_shared<Impedance>(zv, 1e12);
         ElectricField ef(ps, imp, buckets, spacing, nullptr, 9e6, 0.01, 1e-3, 1.3e9, 4.7e-4, 1e-9);
         ElectricField rad(ps, imp, buckets, 0, nullptr, 9e6, 0.01);
         ElectricField spc(ps, imp, buckets, spacing, nullptr, 9e6, 0.01);     // a spaced field that only ever computes CSR
-        for (int round = 0; round < 2; round++) {        // second round: history independence
+        for (int round = 0; round < 3; round++) {        // later rounds: history independence
             boost::multi_array<projection_t, 3> proj(boost::extents[2][nb][N]);
             for (int n = 0; n < nb; n++) for (int x = 0; x < N; x++) proj[0][n][x] = float(std::exp(-0.5 * std::pow((x - N / 2.0 + n + 2 * round) / (2.0 + n), 2)) * (1 + 0.3 * u(g)));
             ps->setProjection(proj);
